@@ -377,7 +377,9 @@ func c06One(c *Ctx, m *Model, cs c06Case) {
 	for _, query := range cs.Queries {
 		one := c06Case{Store: cs.Store, Partition: cs.Partition, Queries: []string{query}}
 		Inflight(one)
-		want, merr := w.monolith(query)
+		// the combined server is asked the query with fragments on the union type written out per member
+		expanded := c06ExpandUnionFragments(query)
+		want, merr := w.monolith(expanded)
 		if merr != nil {
 			// not a valid query for the combined server: outside the property
 			rep.Count("query_rejected_by_monolith")
@@ -398,7 +400,11 @@ func c06One(c *Ctx, m *Model, cs c06Case) {
 			// known finding C06-7: the gateway leaves the __typename it selects on every union element for dispatching
 			// in the answer; anything beyond that is a new violation
 			if trimmed, cut := fdDropExtraTypename(fdStrip(got), fdStrip(wantJ)); cut && Canon(trimmed) == Canon(fdStrip(wantJ)) {
-				rep.Fail("impl_ne_spec", []string{"c06_union_typename_added"}, one, map[string]interface{}{"what": "the gateway's answer has a __typename on union elements that the query did not ask for", "query": query, "gateway": fdStrip(got), "monolith": fdStrip(wantJ)})
+				if c06QuietKnown {
+					rep.Count("known_finding_of_C06:union_typename_added")
+				} else {
+					rep.Fail("impl_ne_spec", []string{"c06_union_typename_added"}, one, map[string]interface{}{"what": "the gateway's answer has a __typename on union elements that the query did not ask for", "query": query, "gateway": fdStrip(got), "monolith": fdStrip(wantJ)})
+				}
 				got = trimmed
 			} else {
 				rep.Fail("impl_ne_spec", c06KF("", query), one, map[string]interface{}{"what": "the gateway's answer differs from the combined server's", "query": query, "gateway": fdStrip(got), "monolith": fdStrip(wantJ), "requests": reqs})
@@ -408,8 +414,21 @@ func c06One(c *Ctx, m *Model, cs c06Case) {
 				continue
 			}
 		}
-		if !fdUnionRe.MatchString(query) {
+		if m != nil && !fdUnionRe.MatchString(query) {
 			c06Model(c, m, w, cs, query, got, wantJ)
+		}
+		if expanded != query {
+			// known finding C06-8: thunder's own executor ignores a fragment whose type condition is the union itself
+			if raw, rerr := w.monolith(query); rerr == nil {
+				b, _ := json.Marshal(raw)
+				var rawJ interface{}
+				json.Unmarshal(b, &rawJ)
+				if Canon(fdStrip(rawJ)) != Canon(fdStrip(wantJ)) && c06QuietKnown {
+					rep.Count("known_finding_of_C06:fragment_on_union_type_ignored")
+				} else if Canon(fdStrip(rawJ)) != Canon(fdStrip(wantJ)) {
+					rep.Fail("impl_ne_spec", []string{"c06_fragment_on_union_type_ignored"}, one, map[string]interface{}{"what": "the combined server ignores a fragment whose type condition is the union itself (the gateway honours it)", "query": query, "written_out": expanded, "monolith": fdStrip(rawJ), "monolith_written_out": fdStrip(wantJ)})
+				}
+			}
 		}
 		rep.Count(fmt.Sprintf("requests=%d", len(reqs)))
 		rep.Eval(Canon(one), len(reqs) > 1, map[string]interface{}{"services": cs.Partition.Services, "requests": len(reqs)})
@@ -417,6 +436,10 @@ func c06One(c *Ctx, m *Model, cs c06Case) {
 }
 
 func c06KF(errText, query string) []string { return nil }
+
+// c06QuietKnown: when another property's check borrows the gateway comparison (C19), C06's known divergences are
+// only counted there; they are C06's findings and are reported by C06's check
+var c06QuietKnown = false
 
 // fdDropExtraTypename removes "__typename" entries of got's objects where want's object at the same place has none.
 func fdDropExtraTypename(got, want interface{}) (interface{}, bool) {
@@ -488,6 +511,20 @@ func c06Repro(rep *Report) {
 	run("C06-3", "query Q { oneA { id } oneA { aPlus(n: 1) @include(if: false) aPlus(n: 1) } }", false)
 	run("C06-4", "query Q { y: __typename }", false)
 	run("C06-7", "query Q { us { ... on A { id } } }", true)
+	// C06-8: the combined server answers the query and its per-member spelling differently
+	q8 := "query Q { us { ... on fdU { ... on A { id } } } }"
+	if raw, e1 := w.monolith(q8); e1 == nil {
+		if exp, e2 := w.monolith(c06ExpandUnionFragments(q8)); e2 == nil {
+			rep.Repros["C06-8"] = Repro{Fails: Canon(internalJSON(raw)) != Canon(internalJSON(exp)), Detail: fmt.Sprintf("%s: combined server %s; written out per member %s", q8, Canon(internalJSON(raw)), Canon(internalJSON(exp)))}
+		}
+	}
+}
+
+func internalJSON(v interface{}) interface{} {
+	b, _ := json.Marshal(v)
+	var out interface{}
+	json.Unmarshal(b, &out)
+	return fdStrip(out)
 }
 
 // c06Refresh: requests from several goroutines while the gateway refreshes its schema every second
@@ -507,7 +544,7 @@ func c06Refresh(c *Ctx, r *Rand, d time.Duration) {
 	var jobs []job
 	for k := 0; k < 40; k++ {
 		q := c06GenQuery(r)
-		want, merr := w.monolith(q)
+		want, merr := w.monolith(c06ExpandUnionFragments(q))
 		if merr != nil {
 			continue
 		}
@@ -829,7 +866,83 @@ func (g *c06QGen) unionBody(depth int, path string) string {
 		t := []string{"A", "B"}[g.r.Intn(2)]
 		parts = append(parts, "... on "+t+g.dirs()+" { "+g.body(t, depth, path+"#"+t)+" }")
 	}
+	if depth > 0 && g.r.Chance(0.25) {
+		// a fragment whose type condition is the union itself, with its own directives
+		parts = append(parts, "... on fdU"+g.dirs()+" { "+g.unionBody(depth-1, path)+" }")
+	}
 	return strings.Join(parts, " ")
+}
+
+// c06ExpandUnionFragments rewrites every fragment whose type condition is the union itself into the fragments
+// on its members that it stands for: `... on fdU D { __typename ... on A X {..} ... on B Y {..} }` becomes
+// `... on A D { __typename ... on A X {..} } ... on B D { __typename ... on B Y {..} }` (the same query by the
+// GraphQL rules, in a form thunder's own executor understands; see known finding C06-8).
+func c06ExpandUnionFragments(q string) string {
+	const head = "... on fdU"
+	for {
+		i := strings.LastIndex(q, head) // innermost first: the last occurrence contains no other
+		if i < 0 {
+			return q
+		}
+		open := strings.Index(q[i:], "{") + i
+		dirs := q[i+len(head) : open]
+		depth, end := 0, -1
+		for j := open; j < len(q); j++ {
+			if q[j] == '{' {
+				depth++
+			} else if q[j] == '}' {
+				depth--
+				if depth == 0 {
+					end = j
+					break
+				}
+			}
+		}
+		body := q[open+1 : end]
+		// top-level items of the body
+		var items []string
+		for k := 0; k < len(body); {
+			for k < len(body) && body[k] == ' ' {
+				k++
+			}
+			if k >= len(body) {
+				break
+			}
+			start := k
+			if strings.HasPrefix(body[k:], "...") {
+				d := 0
+				for ; k < len(body); k++ {
+					if body[k] == '{' {
+						d++
+					} else if body[k] == '}' {
+						d--
+						if d == 0 {
+							k++
+							break
+						}
+					}
+				}
+			} else {
+				for k < len(body) && body[k] != ' ' {
+					k++
+				}
+			}
+			items = append(items, strings.TrimSpace(body[start:k]))
+		}
+		var out []string
+		for _, m := range []string{"A", "B"} {
+			var keep []string
+			for _, it := range items {
+				if !strings.HasPrefix(it, "...") || strings.HasPrefix(it, "... on "+m+" ") {
+					keep = append(keep, it)
+				}
+			}
+			if len(keep) > 0 {
+				out = append(out, "... on "+m+dirs+"{ "+strings.Join(keep, " ")+" }")
+			}
+		}
+		q = q[:i] + strings.Join(out, " ") + q[end+1:]
+	}
 }
 
 func c06GenQuery(r *Rand) string {
